@@ -243,24 +243,52 @@ func (e *sizeEval) msizeDerived(m *ServerModel, fi *FuncInfo, ex ast.Expr, need 
 		}
 		return false
 	}
-	if id, ok := v.(*ast.Ident); ok {
-		if obj, ok := objOf(info, id).(*types.Var); ok && !obj.IsField() {
+	// value: the negotiated size itself, a local whose definitions all are (with maximumLength
+	// standing in while nothing has been negotiated), or what a private getter hands back
+	var value func(fi *FuncInfo, v ast.Expr, depth int) bool
+	value = func(fi *FuncInfo, v ast.Expr, depth int) bool {
+		v = unparen(v)
+		if id, ok := v.(*ast.Ident); ok {
+			obj, ok := objOf(info, id).(*types.Var)
+			if !ok || obj.IsField() {
+				return false
+			}
 			ds := defsOf(e.r.L, info, fi, obj)
-			okV = len(ds) > 0
+			if len(ds) == 0 {
+				return false
+			}
 			for _, d := range ds {
 				if check(d.Rhs) {
 					continue
 				}
 				// the default for "not negotiated": maximumLength under V == 0
-				if s := e.r.L.str(d.Rhs); s == "maximumLength" && d.Cond != nil && d.Then && strings.ReplaceAll(e.r.L.str(d.Cond), " ", "") == vs+"==0" {
+				if s := e.r.L.str(d.Rhs); s == "maximumLength" && d.Cond != nil && d.Then && strings.ReplaceAll(e.r.L.str(d.Cond), " ", "") == id.Name+"==0" {
 					continue
 				}
-				okV = false
+				if tf, rets := getterReturns(e.r.L, info, d.Rhs); tf != nil && tf.Pkg == fi.Pkg && depth < 3 {
+					all := true
+					for _, ret := range rets {
+						all = all && value(tf, ret, depth+1)
+					}
+					if all {
+						continue
+					}
+				}
+				return false
 			}
+			return true
 		}
-	} else {
-		okV = check(v)
+		if tf, rets := getterReturns(e.r.L, info, v); tf != nil && tf.Pkg == fi.Pkg && depth < 3 {
+			for _, ret := range rets {
+				if !value(tf, ret, depth+1) {
+					return false
+				}
+			}
+			return true
+		}
+		return check(v)
 	}
+	okV = value(fi, v, 0)
 	if !okV {
 		return false, fmt.Sprintf("%s is not the negotiated message size (definitions: %v): a bound that does not follow the msize announced in Rversion cannot keep replies within it", vs, srcs)
 	}
@@ -414,6 +442,25 @@ func checkC13(r *Run) {
 				}
 			}
 		}
+		// (the copy may sit in a private helper judged in tread.handle's context: its length
+		// operand then stands for what the handler passed)
+		seenDeep := map[*ast.CallExpr]bool{}
+		for _, s := range m.DB.Deep[tr] {
+			if s.Call == nil || seenDeep[s.Call] {
+				continue
+			}
+			if id, ok := s.Call.Fun.(*ast.Ident); ok && id.Name == "copy" && len(s.Call.Args) == 2 {
+				if _, isB := info.Uses[id].(*types.Builtin); !isB {
+					continue
+				}
+				if sl, ok := unparen(s.Call.Args[0]).(*ast.SliceExpr); ok && sl.High != nil {
+					seenDeep[s.Call] = true
+					n++
+					ok2, why := ev.boundedLength(m, tr, s.mapExpr(info, sl.High), s.St, needR)
+					r.check(ok2, "r1", "tread: xattr copy length bounded by the negotiated msize", s.Call.Pos(), why, why)
+				}
+			}
+		}
 		r.floor("r1", "read sites in tread.handle", n, 2)
 		// reply Data = buf[:n], n from ReadAt/copy
 		okData := false
@@ -432,7 +479,7 @@ func checkC13(r *Run) {
 							if !ok {
 								return true
 							}
-							for _, l := range as.Lhs {
+							for li, l := range as.Lhs {
 								if objOf(info, l) == obj {
 									cnt++
 									rhs := ""
@@ -441,6 +488,37 @@ func checkC13(r *Run) {
 											rhs = calleeKey(info, c)
 											if id, ok := c.Fun.(*ast.Ident); ok && id.Name == "copy" {
 												rhs = "copy"
+											}
+											// a private helper that hands back, in this position, 0 or what copy
+											// returned
+											if tf := r.L.FuncOf(callee(info, c)); tf != nil && tf.Decl.Body != nil && !tf.Obj.Exported() && !pinnedFuncs[tf.Key] {
+												nret, allCopy := 0, true
+												inspectNoLit(tf.Decl.Body, func(rn ast.Node) {
+													ret, isRet := rn.(*ast.ReturnStmt)
+													if !isRet {
+														return
+													}
+													nret++
+													if li >= len(ret.Results) {
+														allCopy = false
+														return
+													}
+													x := unparen(ret.Results[li])
+													if v, isC := constInt(info, x); isC && v == 0 {
+														return
+													}
+													if cc, isCall := x.(*ast.CallExpr); isCall {
+														if cid, isId := cc.Fun.(*ast.Ident); isId && cid.Name == "copy" {
+															if _, isB := info.Uses[cid].(*types.Builtin); isB {
+																return
+															}
+														}
+													}
+													allCopy = false
+												})
+												if nret > 0 && allCopy {
+													rhs = "copy"
+												}
 											}
 										}
 									}
@@ -719,4 +797,33 @@ func c13Client(r *Run, m *ServerModel, ev *sizeEval, needW, needR int64) {
 		}
 		r.check(okAll && n > 0, "r4", "roundDown never exceeds its argument", rd.Decl.Pos(), "returns p or p − p%align", "roundDown can return something other than p or p − p%align")
 	}
+}
+
+// getterReturns: e is a call, without arguments, of a declared function of the module that
+// has a body and one result; the operands of its own return statements are handed back (nil
+// when a return does not name its value).
+func getterReturns(l *Loaded, info *types.Info, e ast.Expr) (*FuncInfo, []ast.Expr) {
+	call, ok := unparen(e).(*ast.CallExpr)
+	if !ok || len(call.Args) != 0 {
+		return nil, nil
+	}
+	tf := l.FuncOf(callee(info, call))
+	if tf == nil || tf.Decl.Body == nil || tf.Decl.Type.Results == nil || tf.Obj.Type().(*types.Signature).Results().Len() != 1 {
+		return nil, nil
+	}
+	var rets []ast.Expr
+	bad := false
+	inspectNoLit(tf.Decl.Body, func(n ast.Node) {
+		if ret, ok := n.(*ast.ReturnStmt); ok {
+			if len(ret.Results) != 1 {
+				bad = true
+			} else {
+				rets = append(rets, ret.Results[0])
+			}
+		}
+	})
+	if bad || len(rets) == 0 {
+		return nil, nil
+	}
+	return tf, rets
 }
